@@ -83,6 +83,13 @@ Start(id) ==
         [A |-> Model("A", [id |-> IdField,
                            f |-> Field("Char", D2("max_length", 10, "unique", TRUE)),
                            g |-> Field("Int", D2("null", TRUE, "db_index", TRUE))], <<>>)]
+    [] id = 5 ->          \* A references B: the referenced model sorts AFTER its referrer
+        [A |-> Model("A", [id |-> IdField,
+                           f |-> FKField("B", EmptyDict),
+                           g |-> Field("Int", D1("null", TRUE))], <<>>),
+         B |-> Model("B", [id |-> IdField,
+                           f |-> Field("Char", D1("max_length", 10)),
+                           g |-> Field("Int", EmptyDict)], <<>>)]
     [] OTHER ->           \* one model only
         [A |-> Model("A", [id |-> IdField,
                            f |-> Field("Char", D1("max_length", 10)),
@@ -128,6 +135,13 @@ Alphabet ==
                  : m \in {"A", "B"}, t \in ModelNames }
         \cup { MDel(m, x) : m \in {"A", "B"}, x \in {"f", "h"} }
         \cup { MRenF(m, "h", "g") : m \in {"B"} }
+    [] AlphaId = 6 ->      \* plain column changes on two models (multi-table evolutions)
+        UNION { { MAdd(m, "h", "Int", D1("null", TRUE), None),
+                  MAdd(m, "h", "Char", D1("max_length", 10), "i"),
+                  MChg(m, "g", None, D1("null", FALSE), "i"),
+                  MChg(m, "g", None, D1("null", TRUE), None),
+                  MChg(m, "g", None, D1("db_index", TRUE), None),
+                  MDel(m, "g"), MDel(m, "h") } : m \in {"A", "B"} }
     [] AlphaId = 4 ->      \* unique / db_index toggles next to other changes on model A
         UNION { { MChg("A", x, None, D1("unique", FALSE), None),
                   MChg("A", x, None, D1("unique", TRUE), None),
